@@ -111,6 +111,9 @@ func UnmarshalAttribute(attr *api.Attribute) (bgp.PathAttributeInterface, error)
 		attr.LinkLocalNexthop = linkLocalNexthop
 		return attr, nil
 	case *api.Attribute_MpUnreach:
+		if a.MpUnreach.Family == nil {
+			return nil, fmt.Errorf("empty family")
+		}
 		rf := ToFamily(a.MpUnreach.Family)
 		var nlris []bgp.NLRI
 		if len(a.MpUnreach.Nlris) > 0 { // none: the End-of-RIB marker
